@@ -285,6 +285,13 @@ def run(ctx):
     ctx.inst('R5', 'parent table', ok10, why10, None, key='asefile::layer::compute_parents|R5|I10')     # what 'visible' walks (seed C19-n)
     import C09 as _c09
     import rule as _R
+    # "has a cel" is one notion for all routes: is_empty is exactly `the lookup finds nothing` (seed C19-p called linked cels empty)
+    ie_ = ctx.anchor('asefile::cel::Cel::is_empty')
+    if ie_ is not None:
+        t_ = res(ie_).ret()
+        ok_ = t_[0] == 'call' and t_[1] == 'std::option::Option::is_none' and t_[2][0][0] == 'call' and t_[2][0][1] == 'asefile::cel::CelsData::cel'
+        ctx.inst('R5', 'Cel::is_empty', ok_, 'is_empty = %s; must be framedata.cel(id).is_none() without negation' % show(t_)[:120], ie_.span, key=ie_.name + '|R5|is_empty')
+    _c09.walk_tests_every_member(ctx, rule='R5')      # a hidden nested layer drawn by the frame but not "visible" (seed C19-o)
     _c09.level_source(_R.View(ctx, {'V7': 'R5'}))      # "visible" rests on the nesting levels as the file gives them (seed C19-k: u8)
     _render.gate(ctx, rule='R5')          # 'exactly one visible layer': the frame draws a cel iff Layer::is_visible of its layer
     _render.image_delegation(ctx, rule='R5')
